@@ -16,7 +16,7 @@ RULES = {
 }
 CONTROL_REV = '078b142'  # thorough tier: the rules must still report the defects found (and since fixed) on the original tree
 CONTROLS = [('C01.R2', 'afftree_from_layers_generic#dim:Argmax'), ('C01.R2', 'afftree_from_layers_generic#dim:ClassChar')]
-FLOORS = {'C01.R6': 15, 'C01.R5': 16, 'C01.R1': 7, 'C01.R2': 7, 'C01.R3': 1, 'C01.R4': 26}
+FLOORS = {'C01.R6': 15, 'C01.R5': 16, 'C01.R1': 7, 'C01.R2': 7, 'C01.R3': 1, 'C01.R4': 30}
 EXPLANATION = ('C01 is the composition of C02 (apply_func/compose), C03 (elimination), C17 (schema trees) and the clause decided here: the distiller feeds each layer to the right '
                'generator with the right arguments and keeps its running dimension equal to the tree\'s output dimension.')
 DOES_NOT_DECIDE = 'numeric agreement (delegated to C02/C03/C17 and their limits)'
